@@ -107,9 +107,25 @@ impl BisyncStateDb {
         use std::collections::hash_map::DefaultHasher;
         use std::hash::{Hash, Hasher};
 
+        // The pair is identified by WHERE the two roots are, not by how they were typed: hashed as
+        // given, `sy -b a b` started in two different directories shared one database (the second
+        // pair's files were "deleted on the other side" and removed), and `a/ b/` or `./a ./b`
+        // opened an empty one (a deletion was resurrected, a one-sided edit became a conflict).
+        // A root that cannot be resolved locally (a remote one) is made absolute at most.
+        let located = |p: &Path| {
+            std::fs::canonicalize(p).unwrap_or_else(|_| {
+                if p.is_absolute() {
+                    p.to_path_buf()
+                } else {
+                    std::env::current_dir()
+                        .map(|dir| dir.join(p))
+                        .unwrap_or_else(|_| p.to_path_buf())
+                }
+            })
+        };
         let mut hasher = DefaultHasher::new();
-        source.to_string_lossy().hash(&mut hasher);
-        dest.to_string_lossy().hash(&mut hasher);
+        located(source).to_string_lossy().hash(&mut hasher);
+        located(dest).to_string_lossy().hash(&mut hasher);
         format!("{:x}", hasher.finish())
     }
 
